@@ -9,7 +9,7 @@ pub fn run(suite: &str, rng: &mut Rng, ctx: &mut Ctx) {
     match suite {
         "mal" => mal(rng, ctx), "prefix" => prefix(rng, ctx), "irr" => irr(rng, ctx), "inc" => inc(rng, ctx), "frag" => frag(rng, ctx),
         "newer" => newer(rng, ctx), "maxver" => maxver(rng, ctx), "norm" => norm(rng, ctx), "pread" => pread(rng, ctx), "pprefix" => pprefix(rng, ctx),
-        "consts" => consts(ctx), "fixtures" => fixtures(ctx), "pmodel" => pmodel(rng, ctx),
+        "consts" => consts(ctx), "vgrid" => vgrid(rng, ctx), "fixtures" => fixtures(ctx), "pmodel" => pmodel(rng, ctx),
         _ => { eprintln!("unknown suite {suite}"); std::process::exit(2); }
     }
 }
@@ -230,6 +230,11 @@ fn irr(rng: &mut Rng, ctx: &mut Ctx) {
         if l != bl { c.fail("C08", format!("game differs from the one parsed without the tolerated irregularities: {} vs {}", &l[..l.len().min(200)], &bl[..bl.len().min(200)])); if what == 2 { c.fail("C17", "permuted frame body changes the parsed game"); } }
         if let (Some(g), Some(bg)) = (&g, &bg) { if start_json(&g.start) != start_json(&bg.start) || end_json(&g.end) != end_json(&bg.end) || g.metadata != bg.metadata { c.fail("C08", "start/end/metadata differ from the regular parse"); } }
         ctx.push(c);
+        // the same irregular file through a source that returns short reads: unknown payloads are skipped by the same exact reads
+        if k % 2 == 0 { let (plan, pname) = plans(rng, x.len(), k / 2); let fl = read_line_chunked(&x, false, hashed, plan);
+            let mut c = Case::new(read_cmd(false, hashed, &x), fl.clone()); c.tags = vec![format!("irr-frag:{}", pname)];
+            if fl != l0 { let m = format!("replay with unknown events / junk read through short reads ({}) differs from the read from memory: {} vs {}", pname, &fl[..fl.len().min(160)], &l0[..l0.len().min(160)]); c.fail("C08", m.clone()); c.fail("C12", m.clone()); if hashed { c.fail("C11", m); } }
+            ctx.push(c); }
         if r.end.is_some() && k % 3 == 0 {
             let (sl, sg) = read_line(&x, true, k % 2 == 0); let (bsl, _) = read_line(&base, true, false);
             let mut c = Case::new(read_cmd(true, (k % 2 == 0), &x), sl.clone()); c.tags = vec!["irr-skip".into()];
@@ -270,6 +275,10 @@ fn newer(rng: &mut Rng, ctx: &mut Ctx) {
         let base = encode(&r); let x = encode_padded(&r, &pad);
         let (bl, bg) = read_line(&base, false, false); let (l, g) = read_line(&x, false, false);
         let mut c = Case::new(read_cmd(false, false, &x), l.clone()); tags.push("padded".into()); c.tags = tags;
+        if k % 2 == 1 { let (plan, pname) = plans(rng, x.len(), k / 2); let fl = read_line_chunked(&x, false, false, plan);
+            let mut c2 = Case::new(read_cmd(false, false, &x), fl.clone()); c2.tags = vec![format!("padded-frag:{}", pname)];
+            if fl != l { let m = format!("newer-version replay read through short reads ({}) differs from the read from memory", pname); c2.fail("C08", m.clone()); c2.fail("C12", m); }
+            ctx.push(c2); }
         match (&g, &bg) { (Some(g), Some(bg)) => {
             if l != bl { c.fail("C08", "frame data differs when known events carry extra trailing bytes"); }
             if start_json(&g.start) != start_json(&bg.start) { c.fail("C08", "Game Start fields differ when the block carries extra trailing bytes"); }
@@ -312,6 +321,39 @@ fn maxver(rng: &mut Rng, ctx: &mut Ctx) {
     }
 }
 
+/// C09 over the whole version space: both real writers on a tiny game whose version field is set to every
+/// (major, minor, patch) of a grid (quick: every major x every minor x patches {0,1,255}; thorough: all 2^24 triples for the
+/// .slp writer).  One case per major; the model prints the refusal bitmap of `assertMaxVersion` for the same grid.
+fn vgrid(rng: &mut Rng, ctx: &mut Ctx) {
+    let r = simple((3, 16, 0), &[(0, 0, 2)], 0, &[], rng);
+    let b = encode(&r);
+    let mut g = match read_line(&b, false, false).1 { Some(g) => g, None => { let mut c = Case::new("vgrid 0 0".into(), String::new()); c.fail("C09", "base game unreadable"); ctx.push(c); return; } };
+    let patches: Vec<u8> = if ctx.thorough { (0..=255u8).collect() } else { vec![0, 1, 255] };
+    let pl = patches.iter().map(|p| p.to_string()).collect::<Vec<_>>().join(",");
+    let is_ver_err = |e: &str| e.contains("unsupported version");
+    for major in 0..=255u8 {
+        let mut c = Case::new(format!("vgrid {} {}", major, pl), String::new()); c.tags = vec![format!("major-class{}", if major < 3 { "lt" } else if major == 3 { "eq" } else { "gt" })];
+        let mut bits = String::with_capacity(256 * patches.len());
+        for minor in 0..=255u8 { for &p in &patches {
+            let v = (major, minor, p);
+            g.start.slippi.version = slippi::Version(major, minor, p);
+            let w = std::panic::catch_unwind(std::panic::AssertUnwindSafe(|| { let mut out = vec![]; slippi::write(&mut out, &g).map_err(|e| e.to_string()) }));
+            let refused = match &w { Ok(Err(e)) if is_ver_err(e) => true, _ => false };
+            bits.push(if refused { '1' } else { '0' });
+            if (v > MAXV) != refused { c.fail("C09", format!(".slp writer {} version {:?} (maximum 3.16.0)", if refused { "refused" } else { "did not refuse" }, v)); }
+            // the .slpp writer consumes the game (which is not Clone), so it gets a freshly read one: boundary rows and columns of the grid
+            if (minor % 16 == 0 || (14..=18).contains(&minor) || minor == 255) && (p < 2 || p == 255) {
+                let mut g2 = match read_line(&b, false, false).1 { Some(g) => g, None => continue }; g2.start.slippi.version = slippi::Version(major, minor, p);
+                let pw = std::panic::catch_unwind(std::panic::AssertUnwindSafe(|| { let mut out = vec![]; peppi::io::peppi::write(&mut out, g2, None).map_err(|e| e.to_string()) }));
+                let prefused = match &pw { Ok(Err(e)) if is_ver_err(e) => true, _ => false };
+                if (v > MAXV) != prefused { c.fail("C09", format!(".slpp writer {} version {:?} (maximum 3.16.0)", if prefused { "refused" } else { "did not refuse" }, v)); }
+            }
+        } }
+        c.impl_out = format!("grid {}", bits);
+        ctx.push(c);
+    }
+}
+
 // ------------------------------------------------------------------ incremental API and fragmentation (C11, C12, C06 I/O errors)
 
 /// a reader that hands out its bytes in pieces and can fail at a chosen read call
@@ -333,6 +375,16 @@ impl Seek for Chunked {
         if np < 0 { return Err(std::io::Error::new(std::io::ErrorKind::InvalidInput, "seek before start")); }
         self.pos = (np as usize).min(self.data.len()); Ok(self.pos as u64)
     }
+}
+
+/// one-shot read through a source that returns short reads, dumped like `read_line`
+pub fn read_line_chunked(b: &[u8], skip: bool, hash: bool, plan: Vec<usize>) -> String {
+    let o = read_opts(skip, hash);
+    let res = std::panic::catch_unwind(|| slippi::read(Chunked::new(b.to_vec(), plan, None), Some(&o)));
+    match res { Err(_) => "panic".to_string(), Ok(Err(e)) => format!("err {}", e), Ok(Ok(g)) => {
+        match std::panic::catch_unwind(std::panic::AssertUnwindSafe(|| dump::summary(&g))) {
+            Ok(mut s) => { if hash { s = s.replace("hashed=none", &format!("hashed=(some {})", b.len())); } s }
+            Err(_) => "panic-in-dump".to_string() } } }
 }
 
 fn plans(rng: &mut Rng, len: usize, k: usize) -> (Vec<usize>, String) {
